@@ -8,6 +8,8 @@ import QtyModel.UnitSpec
 import QtyModel.Rate
 import QtyModel.Fmt
 import QtyModel.Serde
+import QtyModel.Typing
+import QtyModel.TypingSpec
 import QtyModel.Spec.Temperature
 import QtyModel.Generated.TempTable
 /-
@@ -853,6 +855,22 @@ def runWith {A} (R : Arith A) (C : Codec A) (M : ErrModel) (AT : AmtText A) (AS 
         IO.println s!"impl {n} {if im.isMul then "mul" else "div"} {Text.toString im.lhs} {Text.toString im.rhs} {Text.toString im.out}"
     for (n, why) in W.failed do
       IO.println s!"failed {n} {why}"
+    return 0
+  | ["typing", group] =>
+    -- predicted verdict of the type checker for every `L op R` over the group's types and AmountT
+    let items := if group == "astro" then Gen.Astro.items else if group == "synth" then Gen.Synth.items
+                 else Gen.Catalogue.items
+    let defs := items.filterMap (fun it => match MacroFront.expand it with
+      | .ok d => some (TyDecl.ofDef d) | .error _ => none)
+    let names := amountName :: defs.map (·.name)
+    for op in BinOp.all do
+      for l in names do
+        for r in names do
+          let v := match typechecks defs op l r with
+            | some t => Text.toString t | none => "-"
+          let sp := match TypingSpec.result defs op l r with
+            | some t => Text.toString t | none => "-"
+          IO.println s!"{op.sym} {Text.toString l} {Text.toString r} {v} {sp}"
     return 0
   | ["run", ops, implOut] =>
     let ls ← IO.FS.lines ops
